@@ -4,6 +4,7 @@ EV = "hippolyzer/lib/base/events.py"
 POM = "hippolyzer/lib/proxy/object_manager.py"
 LLUDP = "hippolyzer/lib/proxy/lludp_proxy.py"
 TMPL = "hippolyzer/lib/base/templates.py"
+VOC = "hippolyzer/lib/proxy/vocache.py"
 
 _UNPARENT_LOOP = (
     "        former_child_ids = obj.ChildIDs[:]\n"
@@ -28,6 +29,15 @@ _CANCEL_LOOP = (
     "            if fut_key[0] == local_id:\n"
     "                for fut in futs:\n"
     "                    fut.cancel()\n"
+)
+
+_D37_FIXED = (
+    "                # May be a new version of an object we're already tracking\n"
+    "                obj = self.lookup_fullid(cached_obj[\"FullID\"])\n"
+    "                if obj is not None:\n"
+    "                    self._update_existing_object(obj, cached_obj, ObjectUpdateType.UPDATE, msg)\n"
+    "                else:\n"
+    "                    self._track_new_object(region_state, Object(**cached_obj), msg)\n"
 )
 
 VARIANTS = [
@@ -303,6 +313,31 @@ VARIANTS = [
      "old": "                se.MISSING: se.IdentityAdapter(),\n",
      "new": "                PCode.TREE: se.IdentityAdapter(),\n                PCode.GRASS: se.IdentityAdapter(),\n"
             "                se.MISSING: se.IdentityAdapter(),\n"},
+    # ---- D37: one Object per FullID
+    {"name": "R9 cache hit tracks a new Object without looking the FullID up (fix 51c7d93 reverted)", "file": OM, "expect": "C14.R9",
+     "old": _D37_FIXED, "new": "                self._track_new_object(region_state, Object(**cached_obj), msg)\n"},
+    {"name": "P R9 FullID lookup in another local with an early continue", "file": OM, "expect": "silent",
+     "old": _D37_FIXED,
+     "new": "                known = self.lookup_fullid(cached_obj[\"FullID\"])\n"
+            "                if known is not None:\n"
+            "                    self._update_existing_object(known, cached_obj, ObjectUpdateType.UPDATE, msg)\n"
+            "                    continue\n"
+            "                self._track_new_object(region_state, Object(**cached_obj), msg)\n"},
+    {"name": "R9 guard tests the local-id lookup instead of the FullID lookup", "file": OM, "expect": "C14.R9",
+     "old": "                obj = self.lookup_fullid(cached_obj[\"FullID\"])\n                if obj is not None:\n",
+     "new": "                obj = region_state.lookup_localid(cached_obj[\"LocalID\"])\n                if obj is not None:\n"},
+    # ---- round 8
+    {"name": "R3 kill cascade dereferences the child lookup in place", "file": OM, "expect": "C14.R3",
+     "old": "            child_obj = region_state.lookup_localid(child_id)\n            if child_obj and child_obj.PCode == PCode.AVATAR:\n",
+     "new": "            if region_state.lookup_localid(child_id).PCode == PCode.AVATAR:\n"},
+    {"name": "P R3 kill cascade child lookup under another name", "file": OM, "expect": "silent",
+     "old": "            child_obj = region_state.lookup_localid(child_id)\n            if child_obj and child_obj.PCode == PCode.AVATAR:\n",
+     "new": "            kid = region_state.lookup_localid(child_id)\n            if kid is not None and kid.PCode == PCode.AVATAR:\n"},
+    {"name": "X cache chain flattened into one index per local id (data-level: members may hold different CRCs)", "file": VOC, "expect": "miss",
+     "old": "        for cache in self.region_caches:\n            data = cache.lookup_object_data(local_id, crc)\n"
+            "            if data:\n                return data\n",
+     "new": "        for cache in self.region_caches[:1]:\n            data = cache.lookup_object_data(local_id, crc)\n"
+            "            if data:\n                return data\n"},
     # ---- documented limits
     {"name": "X missing_locals bookkeeping dropped (not observed by the statement)", "file": OM, "expect": "miss",
      "old": "        self.missing_locals -= {obj.LocalID}\n", "new": ""},
